@@ -443,3 +443,58 @@ pub(crate) fn default_ll_table() -> FSETable {
 pub(crate) fn default_of_table() -> FSETable {
     build_table_from_probabilities(OF_DIST, 5)
 }
+
+/// Verification hooks (read-only views and pass-through).
+#[cfg(zstd_rs_verif)]
+#[allow(dead_code)]
+pub mod verif {
+    use super::{FSEEncoder, FSETable};
+    use crate::bit_io::BitWriter;
+    use alloc::vec::Vec;
+
+    /// probability per symbol 0..=255
+    pub fn probabilities(t: &FSETable) -> Vec<i32> {
+        t.states.iter().map(|s| s.probability).collect()
+    }
+    /// (index, baseline, num_bits) of every state of `symbol`, in the table's own order
+    pub fn states(t: &FSETable, symbol: u8) -> Vec<(usize, usize, u8)> {
+        t.states[symbol as usize]
+            .states
+            .iter()
+            .map(|s| (s.index, s.baseline, s.num_bits))
+            .collect()
+    }
+    pub fn table_size(t: &FSETable) -> usize {
+        t.table_size
+    }
+    pub fn write_table(t: &FSETable) -> Vec<u8> {
+        let mut writer = BitWriter::new();
+        t.write_table(&mut writer);
+        writer.dump()
+    }
+    pub fn next_state(t: &FSETable, symbol: u8, idx: usize) -> (usize, usize, u8) {
+        let s = t.next_state(symbol, idx);
+        (s.index, s.baseline, s.num_bits)
+    }
+    pub fn start_state(t: &FSETable, symbol: u8) -> usize {
+        t.start_state(symbol).index
+    }
+    pub fn from_probabilities(probs: &[i32], acc_log: u8) -> FSETable {
+        super::build_table_from_probabilities(probs, acc_log)
+    }
+    /// predefined LL, OF, ML tables of the encoder
+    pub fn defaults() -> [FSETable; 3] {
+        [
+            super::default_ll_table(),
+            super::default_of_table(),
+            super::default_ml_table(),
+        ]
+    }
+    /// table description followed by the interleaved two-state stream (as used for Huffman weights)
+    pub fn encode_interleaved(t: &FSETable, data: &[u8]) -> Vec<u8> {
+        let mut writer = BitWriter::new();
+        let mut enc = FSEEncoder::new(t.clone(), &mut writer);
+        enc.encode_interleaved(data);
+        writer.dump()
+    }
+}
